@@ -1,4 +1,5 @@
 import decimal
+import fractions
 import math
 from typing import Tuple, Union
 
@@ -139,39 +140,14 @@ def CEILING(
         raise xlerrors.NumExcelError('significance below zero and number \
                                       above zero is not allowed')
 
-    number = float(number)
-    significance = float(significance)
-
-    ceiling = significance * math.ceil(number / significance)
-
-    # If number is an exact multiple of significance, no rounding occurs
-    if (number % significance) == 0:
-        return ceiling
-
-    quantize_multiplier = str(significance % 1)
-
-    # If number is negative, and significance is negative, the value is
-    # rounded down, away from zero.
-    if number < 0 and significance < 0:
-        result = decimal.Decimal(ceiling)
-        result = result.quantize(decimal.Decimal(quantize_multiplier),
-                                 rounding=decimal.ROUND_DOWN)
-        return float(result)
-
-    # If number is negative, and significance is positive, the value is
-    # rounded up towards zero.
-    if number < 0 < significance:
-        result = decimal.Decimal(ceiling)
-        result = result.quantize(decimal.Decimal(quantize_multiplier),
-                                 rounding=decimal.ROUND_UP)
-        return float(result)
-
-    # Regardless of the sign of number, a value is rounded up when adjusted
-    # away from zero.
-    result = decimal.Decimal(ceiling)
-    result = result.quantize(decimal.Decimal(quantize_multiplier),
-                             rounding=decimal.ROUND_UP)
-    return float(result)
+    # significance * ceil(number / significance) rounds a positive number
+    # up, a negative number with a negative significance away from zero and
+    # a negative number with a positive significance towards zero.  Exact
+    # arithmetic on the decimal representations: in binary 0.7 / 0.1 is
+    # 6.999999999999999 and 3 * 0.1 is 0.30000000000000004.
+    number = fractions.Fraction(str(number))
+    significance = fractions.Fraction(str(significance))
+    return float(significance * math.ceil(number / significance))
 
 
 @xl.register()
@@ -300,7 +276,11 @@ def FLOOR(
     if significance == 0:
         raise xlerrors.DivZeroExcelError()
 
-    return significance * math.floor(number / significance)
+    # Exact arithmetic on the decimal representations: in binary
+    # 0.7 / 0.1 is 6.999999999999999 and 6 * 0.1 is 0.6000000000000001.
+    number = fractions.Fraction(str(number))
+    significance = fractions.Fraction(str(significance))
+    return float(significance * math.floor(number / significance))
 
 
 @xl.register()
